@@ -125,3 +125,12 @@ def run(ctx):
             why='all chromosomes of the file, in file order, binned at the requested width')
     compare(ctx, 'C20.read_chromsizes', ctx.fa(f'{U}.read_chromsizes'), REF_READ_CHROMSIZES, module=U,
             why='all_names keeps every chromosome in file order; otherwise the documented pattern filter')
+
+
+_run_core = run
+
+
+def run(ctx):
+    _run_core(ctx)
+    from . import refs_misc
+    refs_misc.run_for(ctx, 'C20')
